@@ -78,6 +78,10 @@ pub fn parse_resp(buf: &[u8]) -> Result<(RespIndex, usize), ParseError> {
 
 fn parse_array(buf: &[u8]) -> Result<(ArrayIndex, usize), ParseError> {
     let (len, mut consumed) = parse_len(buf)?;
+    // -1 is the only negative length in RESP (nil).
+    if len < -1 {
+        return Err(ParseError::InvalidProtocol);
+    }
     if len < 0 {
         return Ok((ArrayIndex::Nil, consumed));
     }
@@ -98,6 +102,10 @@ fn parse_array(buf: &[u8]) -> Result<(ArrayIndex, usize), ParseError> {
 
 fn parse_bulk_str(buf: &[u8]) -> Result<(BulkStrIndex, usize), ParseError> {
     let (len, consumed) = parse_len(buf)?;
+    // -1 is the only negative length in RESP (nil).
+    if len < -1 {
+        return Err(ParseError::InvalidProtocol);
+    }
     if len < 0 {
         return Ok((BulkStrIndex::Nil, consumed));
     }
